@@ -177,7 +177,10 @@ func C07(r *core.Run) {
 		MaxK, Bound int
 		FullPerm    int // number of 3-definition programs explored under ALL map orders
 	}
-	spec := in{dir, r.Pick(2, 3), r.Pick(2, 2), r.Pick(4, 48)}
+	spec := in{dir, r.Pick(2, 3), r.Pick(2, 2), r.Pick(16, 48)}
+	if r.Degraded() {
+		spec = in{dir, 1, 1, 16}
+	}
 	outs, deaths := core.Parallel(r, "sweep", spec, r.Workers, func(in in, shard, n int, emit func(c07Out)) {
 		wd := filepath.Join(in.Dir, fmt.Sprint("w", shard))
 		c07Tree().Materialise(wd)
@@ -213,22 +216,22 @@ func C07(r *core.Run) {
 			}
 			eval(c, in.Bound)
 		}
-		// all map orders (unbounded deviations) for a few programs with three chained definitions
+		// ALL map orders (unbounded deviations) for real three-link chains x -> y -> z, every permutation of the lines
 		full := 0
-		for i, c := range c07Cases(3) {
-			if len(c.Defs) != 3 || c.Defs[0][1] != "{{y}}w" && c.Defs[1][1] != "u{{z}}" {
-				continue
+		for _, zv := range []string{"v", "a{2}", "[bc]+", "(?:p|q)"} {
+			chain := [][2]string{{"x", "{{y}}w"}, {"y", "u{{z}}"}, {"z", zv}}
+			for _, perm := range permutations(3) {
+				for _, body := range []int{0, 3} {
+					if full++; full > in.FullPerm {
+						break
+					}
+					if full%n != shard {
+						continue
+					}
+					d := [][2]string{chain[perm[0]], chain[perm[1]], chain[perm[2]]}
+					eval(c07Case{d, body, 0}, 1000)
+				}
 			}
-			if c.Body != 3 && c.Body != 0 || c.Placement != 0 {
-				continue
-			}
-			if full++; full > in.FullPerm {
-				break
-			}
-			if i%n != shard {
-				continue
-			}
-			eval(c, 1000)
 		}
 		emit(out)
 	})
